@@ -13,7 +13,8 @@ RULE = ("integer-coordinate tree sequences: msprime (haploid and ploidy=2 indivi
         "(above roots, on isolated nodes, beyond the last edge, several per site, 40% exactly on tree breakpoints); "
         "tied node times; ~40% of the inputs decorated by gen.exotic (extra flag bits, ALL nodes renumbered, root "
         "mutations, mutation-free sites incl. num_sites == num_mutations, unknown times, arbitrary states, "
-        "populations); x plain / size-biased / custom "
+        "populations); 20% with chromosome-scale integer coordinates (next to 2^24, 2^25, 2^31, 1e8, 3e8); "
+        "x plain / size-biased / custom "
         "sample mask; x random sets of unphased individuals. Non-trivial = at least one edge and one mutation")
 ASSUME = ["tskit's tables satisfy valid_tablesb (checked inside Coq on every input; proved to imply the "
           "theorems' hypotheses)",
@@ -134,7 +135,7 @@ def same_blocks(a, b):
 # ---------------------------------------------------------------- cases
 def make_item(rng, jit=False):
     diploid = rng.random() < 0.55
-    ts, kind = S.any_ts(rng, diploid=diploid, mutations=True, max_edges=90)
+    ts, kind = S.any_ts(rng, diploid=diploid, mutations=True, max_edges=90, stretch=0)
     if diploid and ts.num_individuals and rng.random() < 0.5:
         # singletons on the nodes of individuals
         nodes = [int(u) for ind in ts.individuals() for u in ind.nodes]
@@ -143,6 +144,9 @@ def make_item(rng, jit=False):
     if ts.num_mutations and rng.random() < 0.25:
         ts = S.site_mutation_coincidence(rng, ts)      # num_sites == num_mutations, map not one-to-one
         kind += "+sites=muts"
+    if rng.random() < 0.2:
+        ts = S.stretch_coords(rng, ts)                 # chromosome-scale coordinates (above 2^24 .. 2^31)
+        kind += "+stretch"
     n = ts.num_nodes
     r = rng.random()
     smp = S.is_sample_list(ts)
